@@ -610,6 +610,7 @@ where
         });
         mv(cx, "u32x4x4", "to_scalars", r, ins.len());
         storage_views(cx);
+        storage_eq_default(cx);
     }
 }
 
@@ -687,6 +688,184 @@ fn storage_views(cx: &mut Cx) {
     }
 }
 
+/// Default and == of the storage types (both backend families define them): default is all-zero,
+/// two storages are equal iff every word is (checked on every one-hot difference in every bit position)
+fn storage_eq_default(cx: &mut Cx) {
+    macro_rules! t {
+        ($name:expr, $n:expr, $s:ident, $w:ident, $ty:ty) => {{
+            let ins = data_inputs($n);
+            let r = guarded(|| {
+                if $w(<$ty>::default()) != vec![0u32; $n] {
+                    return Some(format!("{}::default() is not all-zero: [{}]", $name, hexw(&$w(<$ty>::default()))));
+                }
+                let zero = $s(&vec![0u32; $n]);
+                if !(zero == <$ty>::default()) {
+                    return Some(format!("{}::default() != the all-zero value", $name));
+                }
+                for (i, w) in ins.iter().enumerate() {
+                    let (a, b) = ($s(w), $s(w));
+                    if !(a == b) || a != b {
+                        return Some(format!("{} [{}] is not equal to itself", $name, hexw(w)));
+                    }
+                    let is_zero = w.iter().all(|x| *x == 0);
+                    if (a == zero) != is_zero {
+                        return Some(format!("{} [{}] == zero gives {}", $name, hexw(w), a == zero));
+                    }
+                    // against the filler vector with this input's bits flipped in: differs in exactly these bits
+                    let base = &ins[0];
+                    let x: Vec<u32> = base.iter().zip(w.iter()).map(|(p, q)| p ^ q).collect();
+                    if ($s(&x) == $s(base)) != is_zero {
+                        return Some(format!("{} [{}] == [{}] gives {} (input {})", $name, hexw(&x), hexw(base), $s(&x) == $s(base), i));
+                    }
+                }
+                None
+            });
+            mv(cx, $name, "default-and-eq", r, 3 * ins.len());
+        }};
+    }
+    t!("vec128_storage", 4, s128, w128, vec128_storage);
+    t!("vec256_storage", 8, s256, w256, vec256_storage);
+    t!("vec512_storage", 16, s512, w512, vec512_storage);
+    #[cfg(not(feature = "nosimd"))]
+    {
+        let ins = data_inputs(4);
+        let r = guarded(|| {
+            for w in &ins {
+                let s = s128(w);
+                let v: &[u32; 4] = (&s).into();
+                if v[..] != w[..] {
+                    return Some(format!("&vec128_storage [{}] as &[u32;4] = {:x?}", hexw(w), v));
+                }
+                let t: vec128_storage = unsafe { <vec128_storage as Store<vec128_storage>>::unpack(s) };
+                if w128(t) != *w {
+                    return Some(format!("Store::unpack on vec128_storage [{}] -> [{}]", hexw(w), hexw(&w128(t))));
+                }
+            }
+            None
+        });
+        mv(cx, "vec128_storage", "ref-view-and-identity-unpack", r, 2 * ins.len());
+    }
+}
+
+/// what the x86 vector types offer beyond the Machine trait vocabulary (harness feature `simd_extras`,
+/// dropped by the driver if these impls disappear): reinterpreting conversions u128x1 -> u32x4 / u64x2
+/// and their x2 / x4 forms (little-endian word packing), ==, Default, UnsafeFrom<[word; n]>
+#[cfg(all(not(feature = "nosimd"), feature = "simd_extras"))]
+macro_rules! x86_extras {
+    ($cx:expr, $m:expr, $M:ty) => {{
+        let cx: &mut Cx = $cx;
+        let m: $M = $m;
+        type V32 = <$M as Machine>::u32x4;
+        type V64 = <$M as Machine>::u64x2;
+        type V128 = <$M as Machine>::u128x1;
+        let ins = data_inputs(4);
+        let r = guarded(|| {
+            for w in &ins {
+                let v: V128 = m.unpack(s128(w));
+                let a: V32 = v.into();
+                let b: V64 = v.into();
+                if w128(a.into()) != *w || w128(b.into()) != *w {
+                    return Some(format!("u128x1 [{}] into u32x4 = [{}], into u64x2 = [{}]", hexw(w), hexw(&w128(a.into())), hexw(&w128(b.into()))));
+                }
+            }
+            None
+        });
+        mv(cx, "u128x1", "into-u32x4-u64x2", r, 2 * ins.len());
+        let r = guarded(|| {
+            let base = &ins[0];
+            let zero32: V32 = m.unpack(s128(&[0; 4]));
+            let zero64: V64 = m.unpack(s128(&[0; 4]));
+            if w128(V32::default().into()) != vec![0u32; 4] || w128(V64::default().into()) != vec![0u32; 4] || w128(V128::default().into()) != vec![0u32; 4] {
+                return Some("Default of a 128-bit vector type is not all-zero".to_string());
+            }
+            for w in &ins {
+                let is_zero = w.iter().all(|x| *x == 0);
+                let x: Vec<u32> = base.iter().zip(w.iter()).map(|(p, q)| p ^ q).collect();
+                let (a32, b32, c32): (V32, V32, V32) = (m.unpack(s128(w)), m.unpack(s128(&x)), m.unpack(s128(base)));
+                let (a64, b64, c64): (V64, V64, V64) = (m.unpack(s128(w)), m.unpack(s128(&x)), m.unpack(s128(base)));
+                let same32: V32 = m.unpack(s128(w));
+                let same64: V64 = m.unpack(s128(w));
+                if !(a32 == same32) || !(a64 == same64) {
+                    return Some(format!("[{}] is not == itself (u32x4 {}, u64x2 {})", hexw(w), a32 == same32, a64 == same64));
+                }
+                if (a32 == zero32) != is_zero || (a64 == zero64) != is_zero || (b32 == c32) != is_zero || (b64 == c64) != is_zero {
+                    return Some(format!("== on [{}]: vs zero u32x4 {} u64x2 {}; [{}] vs [{}] u32x4 {} u64x2 {}", hexw(w), a32 == zero32, a64 == zero64, hexw(&x), hexw(base), b32 == c32, b64 == c64));
+                }
+            }
+            None
+        });
+        mv(cx, "u32x4,u64x2", "eq-and-default", r, 6 * ins.len());
+        let r = guarded(|| {
+            for w in &ins {
+                let a: V32 = unsafe { UnsafeFrom::unsafe_from([w[0], w[1], w[2], w[3]]) };
+                let q = [w[0] as u64 | (w[1] as u64) << 32, w[2] as u64 | (w[3] as u64) << 32];
+                let b: V64 = unsafe { UnsafeFrom::unsafe_from(q) };
+                if w128(a.into()) != *w || w128(b.into()) != *w {
+                    return Some(format!("unsafe_from of [{}]: u32x4 [{}], u64x2 [{}]", hexw(w), hexw(&w128(a.into())), hexw(&w128(b.into()))));
+                }
+            }
+            None
+        });
+        mv(cx, "u32x4,u64x2", "unsafe_from-words", r, 2 * ins.len());
+        let ins = data_inputs(8);
+        let r = guarded(|| {
+            for w in &ins {
+                let v: <$M as Machine>::u128x2 = m.unpack(s256(w));
+                let a: <$M as Machine>::u32x4x2 = v.into();
+                let b: <$M as Machine>::u64x2x2 = v.into();
+                if w256(a.into()) != *w || w256(b.into()) != *w {
+                    return Some(format!("u128x2 [{}] into u32x4x2 = [{}], into u64x2x2 = [{}]", hexw(w), hexw(&w256(a.into())), hexw(&w256(b.into()))));
+                }
+            }
+            None
+        });
+        mv(cx, "u128x2", "into-u32x4x2-u64x2x2", r, 2 * ins.len());
+        let r = guarded(|| {
+            type V64x2 = <$M as Machine>::u64x2x2;
+            let base = &ins[0];
+            for w in &ins {
+                let is_zero = w.iter().all(|x| *x == 0);
+                let x: Vec<u32> = base.iter().zip(w.iter()).map(|(p, q)| p ^ q).collect();
+                let (a, b, c): (V64x2, V64x2, V64x2) = (m.unpack(s256(&x)), m.unpack(s256(base)), m.unpack(s256(&x)));
+                if (a == b) != is_zero || !(a == c) {
+                    return Some(format!("u64x2x2 == : [{}] vs [{}] gives {}, vs itself {}", hexw(&x), hexw(base), a == b, a == c));
+                }
+                let lanes: [V64; 2] = [m.unpack(s128(&w[0..4])), m.unpack(s128(&w[4..8]))];
+                let u: V64x2 = unsafe { UnsafeFrom::unsafe_from(lanes) };
+                if w256(u.into()) != *w {
+                    return Some(format!("u64x2x2::unsafe_from(lanes of [{}]) = [{}]", hexw(w), hexw(&w256(u.into()))));
+                }
+            }
+            None
+        });
+        mv(cx, "u64x2x2", "eq-and-unsafe_from-lanes", r, 3 * ins.len());
+        let ins = data_inputs(16);
+        let r = guarded(|| {
+            for w in &ins {
+                let v: <$M as Machine>::u128x4 = m.unpack(s512(w));
+                let a: <$M as Machine>::u32x4x4 = v.into();
+                let b: <$M as Machine>::u64x2x4 = v.into();
+                if w512(a.into()) != *w || w512(b.into()) != *w {
+                    return Some(format!("u128x4 [{}] into u32x4x4 = [{}], into u64x2x4 = [{}]", hexw(w), hexw(&w512(a.into())), hexw(&w512(b.into()))));
+                }
+            }
+            None
+        });
+        mv(cx, "u128x4", "into-u32x4x4-u64x2x4", r, 2 * ins.len());
+        let r = guarded(|| {
+            for w in &ins {
+                let lanes: [V64; 4] = [m.unpack(s128(&w[0..4])), m.unpack(s128(&w[4..8])), m.unpack(s128(&w[8..12])), m.unpack(s128(&w[12..16]))];
+                let u: <$M as Machine>::u64x2x4 = unsafe { UnsafeFrom::unsafe_from(lanes) };
+                if w512(u.into()) != *w {
+                    return Some(format!("u64x2x4::unsafe_from(lanes of [{}]) = [{}]", hexw(w), hexw(&w512(u.into()))));
+                }
+            }
+            None
+        });
+        mv(cx, "u64x2x4", "unsafe_from-lanes", r, ins.len());
+    }};
+}
+
 // ---------------------------------------------------------------------------------------------
 #[cfg(not(feature = "nosimd"))]
 mod machines {
@@ -697,16 +876,36 @@ mod machines {
     ext!(SSSE3);
     ext!(SSE41);
     ext!(AVX2);
+    macro_rules! extras_fn {
+        ($f:ident, $M:ty) => {
+            #[cfg(feature = "simd_extras")]
+            fn $f(cx: &mut Cx) {
+                if cx.c13 {
+                    x86_extras!(cx, unsafe { <$M>::instance() }, $M);
+                }
+            }
+            #[cfg(not(feature = "simd_extras"))]
+            fn $f(_cx: &mut Cx) {}
+        };
+    }
+    extras_fn!(extras_sse2, SSE2);
+    extras_fn!(extras_ssse3, SSSE3);
+    extras_fn!(extras_sse41, SSE41);
+    extras_fn!(extras_avx2, AVX2);
     pub fn all(cx: &mut Cx) {
         unsafe {
             cx.backend = "sse2";
             run_machine(cx, SSE2::instance());
+            extras_sse2(cx);
             cx.backend = "ssse3";
             run_machine(cx, SSSE3::instance());
+            extras_ssse3(cx);
             cx.backend = "sse41_avx";
             run_machine(cx, SSE41::instance());
+            extras_sse41(cx);
             cx.backend = "avx2";
             run_machine(cx, AVX2::instance());
+            extras_avx2(cx);
         }
     }
 }
@@ -738,7 +937,8 @@ pub fn run(check: &str, tier: &str, config: &str) -> Report {
     if check == "C12" {
         rep.rule = "for every backend instantiated directly (SSE2, SSSE3, SSE4.1 = AVX types, AVX2; generic in the no_simd build) x the 10 Machine vector types x every operation the trait bounds require (not, and, or, xor, xor-assign, andnot, 8 rotate_each_word_right*, right32, add, add-assign, bswap, shuffle{1230,2301,3012}, shuffle_lane_words*, swap{1..64}; u128x1 bswap through the concrete type): unary ops on every alphabet value {0,1,2,2^w-1,2^w-2,2^(w-1),2^(w-1)-1,0x55..,0xaa..,2 patterns, every one-hot, every one-cold} in every word position with pairwise distinct fillers elsewhere; binary ops on A x A per word position (quick: band around the diagonal + first 11 rows/columns); every ordered pair of unary ops on a seed subset (depth-2 closure); oracle = scalar u32/u64/u128 arithmetic on little-endian word lists".into();
     } else {
-        rep.rule = "for every backend x vector type: unpack(into) round trip, to_lanes/from_lanes/vec, extract/insert at every index, read_le/write_le/read_be/write_be, transpose4, to_scalars, and the array views of vec128/256/512_storage, on {fillers, 0, all-ones, byte-counting pattern, every one-hot bit}; oracle = array semantics with little-endian word packing".into();
+        rep.rule = "for every backend x vector type: unpack(into) round trip, to_lanes/from_lanes/vec, extract/insert at every index, read_le/write_le/read_be/write_be, transpose4, to_scalars, and the array views of vec128/256/512_storage, on {fillers, 0, all-ones, byte-counting pattern, every one-hot bit}; Default and == of the storage types (equal iff no bit differs, every one-hot difference); on the x86 machines also what the vector types offer beyond the trait vocabulary (harness feature simd_extras): u128x1/u128x2/u128x4 reinterpreted Into the 32- and 64-bit-word types, == and Default of u32x4 / u64x2, UnsafeFrom word arrays; oracle = array semantics with little-endian word packing".into();
+        rep.set("simd_extras", json!(cfg!(feature = "simd_extras")));
     }
     rep
 }
